@@ -7,8 +7,10 @@ as what they are: a position (`it_`) in an ordered table (`begin_ .. end_`), wit
     next()   it_++                 *it     it_->first  (or ->second for the edge of a row entry)
 
 `NodesIteratorClass<ALLGRAPHITER>` walks `nodeStructure_`, `EdgesIteratorClass<ALLGRAPHITER>` walks
-`edgeStructure_`, the neighbour iterators walk the outgoing / incoming map of one row (their
-constructor dereferences `find(node)` unchecked: `RowQ.iter`'s `ub`).  The observer's iterators
+`edgeStructure_`, the neighbour iterators walk the outgoing / incoming map of one row; their
+constructor takes the row through `GlobalGraph::rowOf_` (GlobalGraph.h, as repaired in audit round 2),
+which throws the library exception on an absent node: `none` below.  (On the unchanged tree the
+constructor dereferenced `find(node) == end()`: `RowQ.iter`'s `ub` in `Graph.lean` is that legacy outcome.)  The observer's iterators
 wrap a graph iterator and skip the ids that have no object:
 
     start()  it_.start(); while (!it_.end() && agio_.getNodeFromGraphid(*it_) == 0) it_.next();
@@ -83,7 +85,7 @@ end OCursor
 namespace G
 def allNodesIter (g : G) : Cursor Nat := Cursor.mk0 (AL.keys g.nodes)
 def allEdgesIter (g : G) : Cursor Nat := Cursor.mk0 (AL.keys g.edges)
-/-- the four per-node iterators; `none` = the constructor dereferenced `find(node) == end()` -/
+/-- the four per-node iterators; `none` = the factory raises (the node does not exist) -/
 def outNodesIter (g : G) (n : Nat) : Option (Cursor Nat) := (g.rowOf n).map (fun r => Cursor.mk0 (AL.keys r.out))
 def inNodesIter (g : G) (n : Nat) : Option (Cursor Nat) := (g.rowOf n).map (fun r => Cursor.mk0 (AL.keys r.inn))
 def outEdgesIter (g : G) (n : Nat) : Option (Cursor Nat) := (g.rowOf n).map (fun r => Cursor.mk0 (AL.vals r.out))
@@ -94,7 +96,8 @@ namespace World
 /-- `allNodesIterator()` / `allEdgesIterator()` of an observer -/
 def allNodesIter (w : World) (o : Obs) : OCursor := { it := w.g.allNodesIter, obj := o.nodeFromGid }
 def allEdgesIter (w : World) (o : Obs) : OCursor := { it := w.g.allEdgesIter, obj := o.edgeFromGid }
-/-- `outgoingNeighborNodesIterator(Nref)` …: `none` = `getNodeGraphid` threw, `some none` = undefined -/
+/-- `outgoingNeighborNodesIterator(Nref)` …: `none` = `getNodeGraphid` threw, `some none` = the
+graph's iterator constructor raised (an id that is not in the graph: excluded by `OInv`) -/
 def nodeIter (w : World) (o : Obs) (a : Obj) (sel : G → Nat → Option (Cursor Nat)) (edges : Bool) : Option (Option OCursor) :=
   (AL.find a o.Ng).map (fun id => (sel w.g id).map (fun c => { it := c, obj := if edges then o.edgeFromGid else o.nodeFromGid }))
 end World
